@@ -284,7 +284,8 @@ class SpecTerminal:
                         content = None
                     if medium == "t" and content is not None:
                         # a terminal deletes a temporary file after reading it (kitty: only if the name contains this marker)
-                        if "tty-graphics-protocol" in path:
+                        if os.path.basename(path).startswith("tty-graphics-protocol") and os.path.isfile(path) \
+                                and os.path.realpath(path).startswith(os.path.realpath(tempfile.gettempdir()) + os.sep):
                             os.unlink(path)
                     self.partial = dict(keys=keys, data=content)
                     self._complete(now)
